@@ -157,3 +157,22 @@ Theorem c03_script_roles_exact_on_lemma_A_fragment_partial : extract_HI_statemen
   script_intermediates e false [] (map (r_stmt noise) ss) = spec_intermediates (e_cfg e) ss.
 Proof. exact script_roles_exact_on_core_partial. Qed.
 Print Assumptions c03_script_roles_exact_on_lemma_A_fragment_partial.
+
+(** ... and unconditionally for the WHOLE fragment of Lemma A (Tree/ExtractInv.v proves [extract_HI_statement] for all trees,
+    all extractor kinds and all contexts): derived tables, unions, WHERE-IN, CTEs at any nesting depth, any trivia. *)
+From SV Require Import Tree.ExtractInv.
+
+Theorem c03_script_roles_exact_on_lemma_A_fragment : forall noise e ss,
+  noise_ok noise = true -> env_ok e = true ->
+  Forall (fun s => stmt_ok s = true /\ sshape s = true) ss ->
+  script_sources e false [] (map (r_stmt noise) ss) = spec_sources (e_cfg e) ss /\
+  script_targets e false [] (map (r_stmt noise) ss) = spec_targets (e_cfg e) ss /\
+  script_intermediates e false [] (map (r_stmt noise) ss) = spec_intermediates (e_cfg e) ss.
+Proof. exact script_roles_exact_on_core. Qed.
+Print Assumptions c03_script_roles_exact_on_lemma_A_fragment.
+
+(** every holder the extractor returns - for ANY tree - is well formed in the sense the refinement theorem needs *)
+Theorem c03_extracted_holders_are_well_formed : forall fuel e k stmt ctx g, extract fuel e k stmt ctx = Ok g ->
+  HIb g = true /\ RefineDefs.wf_holder (holder_of g) = true /\ CompDefs.plain_holder (holder_of g) = true.
+Proof. exact extract_wf. Qed.
+Print Assumptions c03_extracted_holders_are_well_formed.
